@@ -342,8 +342,11 @@ void dispatchProgram(GenState &gs, Node *c) {
   gs.emitBackpatched(Instruction::Jmp(after_label));
 
   // generate program code
-  Node *name_node = c->left->left, *args_node = c->left->right->left,
-       *out_node = c->left->right->right, *body_node = c->right;
+  // a header without IN has no ports node: no parameters, default OUT
+  Node *name_node = c->left->left, *ports_node = c->left->right,
+       *args_node = ports_node != NULL ? ports_node->left : NULL,
+       *out_node = ports_node != NULL ? ports_node->right : NULL,
+       *body_node = c->right;
 
   std::string name = std::string(name_node->tok);
   gs.pushSymbols(name);
